@@ -61,7 +61,7 @@ class ForLoop:
         self.name = i.name
         self.indexed_symbols = OrderedDict()
 
-    def register_indexed_symbol(self, e, index_function, transpose, tree, index_expr=None):
+    def register_indexed_symbol(self, e, index_function, transpose, tree, index_expr=None, dim=None):
         if len(self.values) == 0:
             # Empty range: nothing to map the index expression over
             indices = self.values
@@ -73,6 +73,15 @@ class ForLoop:
             indices = np.array(res[0].T, dtype=int)
         else:
             indices = self.values
+        if dim is not None and np.size(indices) > 0:
+            # CasADi would wrap indices in [-dim, -1] around to the end of the array
+            if np.min(indices) < 1 or np.max(indices) > dim:
+                raise ValueError(
+                    "Index of symbol {} is out of bounds in for-loop over {}: got indices in range "
+                    "[{},{}], should be in range [1,{}] (Modelica uses 1-based indexing).".format(
+                        tree.name, self.name, np.min(indices), np.max(indices), dim
+                    )
+                )
         self.indexed_symbols[e] = ForLoopIndexedSymbol(tree, transpose, index_function(indices - 1))
 
 
@@ -949,7 +958,7 @@ class Generator(TreeListener):
                 # map the for loop over it
                 if np.prod(s.shape) != 0:
                     for_loop.register_indexed_symbol(
-                        indexed_symbol, index_function, True, tree, indices[0]
+                        indexed_symbol, index_function, True, tree, indices[0], dim=s.size1()
                     )
             else:
                 s = ca.transpose(s[indices[0], :])
@@ -959,7 +968,7 @@ class Generator(TreeListener):
 
                 if np.prod(s.shape) != 0:
                     for_loop.register_indexed_symbol(
-                        indexed_symbol, lambda i: (indices[0], i), False, tree, indices[1]
+                        indexed_symbol, lambda i: (indices[0], i), False, tree, indices[1], dim=s.size1()
                     )
             return indexed_symbol
         else:
